@@ -123,3 +123,11 @@ package types
 //@ func wrapHandler$lit0
 //@ modifies *
 //@ ensures err != nil ==> result == nil
+
+// ---- C10: parameter values the signing clock and the attempt counter can work with -----------------------------------
+// the expiry height of an attempt is uint64(height) + SigningPeriod and the attempt counter is incremented up to
+// MaxSigningAttempt: accepted values must leave room for that arithmetic (a period near 2^64 wraps the expiry height
+// into the past; a limit of 2^64-1 lets the counter wrap)
+//@ func (p Params) Validate
+//@ ensures err == nil ==> 1 <= p.SigningPeriod && p.SigningPeriod <= MaxInt64 && p.MaxSigningAttempt <= MaxInt64
+//@ loop 0: invariant forall j :: 0 <= j && j < #i ==> (fields[j].isPositiveOnly ==> fields[j].val >= 1)
